@@ -22,6 +22,9 @@ type NetOpts struct {
 	MaxForkHeight int  // fork heights are drawn in [0, MaxForkHeight]
 	V2Only        bool // all forks at 0..2 (v2 from the start)
 	V1Only        bool // v2 forks far away
+	// ProofEraSpread > 0 stretches the two early storage-proof eras: the Tax fork height and
+	// everything after it is shifted by a drawn 0..Spread, and again from the StorageProof fork on.
+	ProofEraSpread int
 }
 
 // GenNetwork draws a network configuration with chronologically ordered fork heights
@@ -50,6 +53,16 @@ func GenNetwork(t *rapid.T, o NetOpts) (*consensus.Network, types.Block) {
 		}
 	}
 	sort.Slice(hs, func(i, j int) bool { return hs[i] < hs[j] })
+	if o.ProofEraSpread > 0 {
+		d1 := uint64(rapid.IntRange(0, o.ProofEraSpread).Draw(t, "eraASpread"))
+		d2 := uint64(rapid.IntRange(0, o.ProofEraSpread).Draw(t, "eraBSpread"))
+		for i := 1; i < len(hs); i++ {
+			hs[i] += d1
+			if i >= 2 {
+				hs[i] += d2
+			}
+		}
+	}
 	n.HardforkDevAddr.Height = hs[0]
 	n.HardforkTax.Height = hs[1]
 	n.HardforkStorageProof.Height = hs[2]
